@@ -106,11 +106,21 @@ Proof.
   rewrite (sort_order_free _ _ (filter_perm _ _ _ Hp) (filter_distinct _ _ Hd)). reflexivity.
 Qed.
 
+Lemma one_pass_src_gave_up_order_free allow l l' r ap budget :
+  Permutation l l' -> distinct_versions l -> one_pass_src_gave_up allow l r ap budget = one_pass_src_gave_up allow l' r ap budget.
+Proof.
+  intros Hp Hd. unfold one_pass_src_gave_up.
+  destruct l as [|x l0]; [apply Permutation_nil in Hp; subst; reflexivity|].
+  destruct l' as [|y l0']; [apply Permutation_sym, Permutation_nil in Hp; discriminate|].
+  rewrite (sort_order_free _ _ (filter_perm _ _ _ Hp) (filter_distinct _ _ Hd)). reflexivity.
+Qed.
+
 Lemma get_dist_src_order_free allow u u' ap r budget :
   same_up_to_order u u' -> get_dist_src allow u ap r budget = get_dist_src allow u' ap r budget.
 Proof.
   intros H. destruct (H (norm (safe_name (rname r)))) as [Hp Hd]. unfold listing in Hp, Hd. unfold get_dist_src.
   rewrite (one_pass_src_order_free allow _ _ r ap budget Hp Hd), (one_pass_src_order_free allow _ _ r true budget Hp Hd).
+  rewrite (one_pass_src_gave_up_order_free allow _ _ r ap budget Hp Hd).
   rewrite (forallb_perm _ _ _ Hp). reflexivity.
 Qed.
 
